@@ -42,6 +42,11 @@ func (t *LegacyPKT) ReadPacket() (n int, p []byte, err error) {
 	n, err = t.ChunkedReader.Read(buf)
 	p = make([]byte, n)
 	copy(p, buf)
+	if n > 0 {
+		// the last bytes can come together with the end of the body: hand
+		// them out first, the next read reports the error again
+		err = nil
+	}
 
 	return n, p, err
 }
